@@ -25,7 +25,8 @@ from .data import (Calendar, TimePoint,
                    get_timepoint_for_now as now2point)
 from .dumpers import TimePointDumper
 from .parsers import TimePointParser, DurationParser, TimeRecurrenceParser
-from metomi.isodatetime.exceptions import OffsetValueError
+from metomi.isodatetime.exceptions import (
+    OffsetValueError, StrftimeSyntaxError)
 
 
 class DateTimeOperator(object):
@@ -138,9 +139,20 @@ class DateTimeOperator(object):
             time_point = None
             for parse_format in self.PARSE_FORMATS:
                 try:
-                    time_point = self.strptime(time_point_str, parse_format)
+                    time_point = self.time_point_parser.strptime(
+                        time_point_str, parse_format)
                     break
+                except StrftimeSyntaxError:
+                    # Directives that only the datetime library understands.
+                    try:
+                        time_point = self.get_datetime_strptime(
+                            time_point_str, parse_format)
+                        break
+                    except ValueError:
+                        pass
                 except ValueError:
+                    # The format is supported but does not match: do not let
+                    # the (lenient) datetime library re-interpret the digits.
                     pass
             if time_point is None:
                 time_point = self.time_point_parser.parse(
